@@ -20,6 +20,11 @@ structure Cfg where
   onChain : Nat → Nat → Bool
   /-- token-pair `Enabled` flag (static in this model; toggling is a C08 operation) -/
   enabled : Nat → Bool := fun _ => true
+  /-- environment hypothesis, explicit: the external chain cannot send in (deposit) more of a token that originates
+  on fxcore (FX, externally-owned pair) than circulates outside, i.e. what was there initially plus what the bridge
+  executed out minus what already came back.  `false` = no restriction (the theorems that do not need it hold for
+  both values). -/
+  envBound : Bool := false
 
 structure PoolTx where
   id : Nat
@@ -60,6 +65,8 @@ structure ChainSt where
   created : List Batch := []
   extLast : Nat → Nat := fun _ => 0
   expired : List (Nat × Nat) := []
+  /-- ghost: amount of each token group circulating on the external chain (initial + executed out − deposited) -/
+  ext : Nat → Nat := fun _ => 0
 
 structure State where
   L : Ledger
@@ -144,10 +151,25 @@ def extract {α : Type} (p : α → Bool) : List α → Option (α × List α)
     | some (y, ys) => some (y, x :: ys)
     | none => none
 
-/-- end of every operation: store the chain's records, bump the ghost counters -/
+def tokensValue (g : Nat) (tokens : List (Nat × Nat)) : Nat :=
+  (tokens.map (fun t => if t.1 = g then t.2 else 0)).sum
+
+/-- end of every operation: store the chain's records, bump the ghost counters (deposits observed, withdrawals observed
+as executed, and with them the amount circulating on the external chain) -/
 def finish (s : State) (c : Nat) (cs : ChainSt) (dep wd : List (Nat × Nat)) : State :=
-  let s1 := setChain s c cs
+  let s1 := setChain s c { cs with ext := fun g => cs.ext g + tokensValue g wd - tokensValue g dep }
   { s1 with deposited := bumpAll s1.deposited dep, withdrawn := bumpAll s1.withdrawn wd }
+
+/-- tokens whose bridge side locks / unlocks (they originate on fxcore): FX and externally-owned pairs -/
+def locks (cfg : Cfg) (g : Nat) : Bool :=
+  match cfg.kind g with
+  | some .moduleOwned => false
+  | some _ => true
+  | none => false
+
+/-- the environment can produce this deposit: for every locking token the external chain holds what it sends in -/
+def envOk (cfg : Cfg) (cs : ChainSt) (tokens : List (Nat × Nat)) : Bool :=
+  !cfg.envBound || tokens.all (fun t => !locks cfg t.1 || decide (tokensValue t.1 tokens ≤ cs.ext t.1))
 
 def Op.chain? : Op → Option Nat
   | .deposit c .. | .send c .. | .xsend c .. | .cancel c .. | .incfee c .. | .batch c .. | .executed c ..
@@ -380,6 +402,7 @@ def refundCall (cfg : Cfg) (s : State) (c : Nat) (call : OutCall) (cs' : ChainSt
 def stepCore (cfg : Cfg) (s : State) : Op → Except Err State
   | .deposit c g u n toErc => do
     let some k := bridged cfg g c | .error .notFound
+    if !envOk cfg (s.chains c) [(g, n)] then .error .invalid else
     let fl1 := bridgeTokenToBaseCoin k g c (U u) n
     let fl ← if toErc then
         (match pairOk cfg g with
@@ -462,12 +485,14 @@ def stepCore (cfg : Cfg) (s : State) : Op → Except Err State
     let some (call, rest) := extract (·.nonce == nonce) cs.calls | .error .notFound
     refundCall cfg s c call { cs with calls := rest }
   | .bcin c to tokens => do
+    if !envOk cfg (s.chains c) tokens then .error .invalid else
     let fl1 ← tokensFlow cfg c tokens (fun k g n => bridgeTokenToBaseCoin k g c (U to) n)
     let fl2 ← pairsFlow cfg tokens (fun k g n => convertCoin k g (U to) (U to) n)
     let s1 ← run s (fl1 ++ fl2)
     pure (finish s1 c (s1.chains c) tokens [])
   | .bcinfail c r tokens => do
     let cs := s.chains c
+    if !envOk cfg cs tokens then .error .invalid else
     -- credit to the callee outside the cache context; the EVM part fails and is discarded; the credited coins are
     -- handed to the refund address (`SendCoins(receiver, refundAddr, baseCoins)`), and the refund is an outgoing bridge
     -- call built from the refund address' coins
@@ -512,9 +537,6 @@ def runOps (cfg : Cfg) (s : State) (ops : List Op) : State := ops.foldl (stepT c
 def poolValue (g : Nat) (txs : List PoolTx) : Nat :=
   (txs.map (fun t => if t.g = g then t.amount + t.fee else 0)).sum
 
-def tokensValue (g : Nat) (tokens : List (Nat × Nat)) : Nat :=
-  (tokens.map (fun t => if t.1 = g then t.2 else 0)).sum
-
 def chainInFlight (g : Nat) (cs : ChainSt) : Nat :=
   poolValue g cs.pool + (cs.batches.map (fun b => poolValue g b.txs)).sum
     + (cs.calls.map (fun cl => tokensValue g cl.tokens)).sum
@@ -528,6 +550,9 @@ def assets (g : Nat) : List Asset := [.base g, .bridge g 0, .bridge g 1, .bridge
 /-- accounts that are not holders: the crosschain module accounts, the erc20 module account, the WFX contract -/
 def modules : List Addr := [.chainMod 0, .chainMod 1, .chainMod 2, .erc20Mod, .wfx]
 
-def init (L : Ledger) : State := ⟨L, fun _ => {}, fun _ => 0, fun _ => 0⟩
+/-- initial state: ledger `L`, no records, `e0 c g` of group `g` circulating on external chain `c` -/
+def initE (L : Ledger) (e0 : Nat → Nat → Nat) : State := ⟨L, fun c => { ext := e0 c }, fun _ => 0, fun _ => 0⟩
+
+def init (L : Ledger) : State := initE L (fun _ _ => 0)
 
 end FxVerif.Model.C04
